@@ -132,7 +132,7 @@ def r14_1(ctx):
     rr = idx.reachable([idx.func("RZILTransformer.reset")])
     ctx.need(len(rr) <= 12, f"reset() reaches {len(rr)} functions - call graph resolution changed")
     rt = summarise(idx, rr.values())
-    R = {k for k, v in rt.items() if k[0] in S and ("rebind" in v or any(e.how == ".clear()" for e in v.get("mutate", [])))}
+    R = {k for k, v in rt.items() if k[0] in S and ("rebind" in v or any(e.how.split(" via ")[0] == ".clear()" for e in v.get("mutate", [])))}
     ctx.need(len(W) >= 12, f"write set unexpectedly small: {sorted(W)}")
     for k in sorted(W):
         cls, attr = k
